@@ -445,6 +445,7 @@ fn coded_frames_cut(rng: &mut Rng, thorough: bool, sink: &mut Sink) {
         let framing = rng.below(3);
         let mut body = vec![];
         let mut first_chunk_end = 0usize;
+        let mut npieces = 1usize;
         match framing {
             0 => {
                 head.extend_from_slice(format!("Content-Length: {}\r\n", coded.len()).as_bytes());
@@ -454,6 +455,7 @@ fn coded_frames_cut(rng: &mut Rng, thorough: bool, sink: &mut Sink) {
                 head.extend_from_slice(b"Transfer-Encoding: chunked\r\n");
                 // one chunk for the whole stream (what most servers send for a small response), or several
                 let pieces: Vec<&[u8]> = if framing == 1 { vec![&coded[..]] } else { coded.chunks(rng.range(1, 4000) as usize).collect() };
+                npieces = pieces.len();
                 for (k, pc) in pieces.iter().enumerate() {
                     body.extend_from_slice(format!("{:x}\r\n", pc.len()).as_bytes());
                     body.extend_from_slice(pc);
@@ -481,9 +483,9 @@ fn coded_frames_cut(rng: &mut Rng, thorough: bool, sink: &mut Sink) {
         let reads = match rng.below(4) {
             0 => Reads::Drain(crate::resp::DRAIN_BYTES),
             1 => Reads::Drain(8192),
-            // (every read may hand out as little as one segment's worth)
-            2 => Reads::Sizes(vec![1 << 16; segs.len() + 12 + len / 8192]),
-            _ => Reads::Sizes(vec![100; segs.len() + len / 100 + 12]),
+            // (every read may hand out as little as one segment's or one chunk's worth)
+            2 => Reads::Sizes(vec![1 << 16; segs.len() + npieces + 12 + len / 8192]),
+            _ => Reads::Sizes(vec![100; segs.len() + npieces + len / 100 + 12]),
         };
         let case = RespCase { method: "GET".into(), max_headers: 100, segs, reads };
         let out = run_resp(&case);
